@@ -300,7 +300,10 @@ def _param_classes(shape):
   # 'args' / 'kw' are the names of the variadic parameters in the generated signatures: they are
   # not parameters a binding can name (unless **kw accepts any name)
   return (named + ['zz_unknown'] + G.EXTRA[:1] + ['args', 'kw'] +
-          (['zz_base', 'zz_base'] if shape.get('far_ctor') else []))
+          (['zz_base', 'zz_base'] if shape.get('far_ctor') else []) +
+          # the already bound `self` of a callable object / bound method is no parameter
+          (['self', 'self'] if shape['kind'] in ('callobj', 'boundmethod') and not shape['varkw']
+           else []))
 
 
 @st.composite
@@ -320,7 +323,10 @@ def strategy():
 
 @st.composite
 def _static_case(draw):
-  shape = draw(G.shapes())
+  shape = draw(G.shapes(kinds=('function', 'function', 'class_init', 'class_new', 'method',
+                               'callobj', 'boundmethod')))
+  if shape['kind'] in ('callobj', 'boundmethod') and shape['api'] == 'configurable':
+    shape['api'] = 'external'
   shape['method_api'] = 'register'
   if shape['kind'] == 'method':
     shape['method_contains_class'] = draw(st.booleans())
